@@ -30,7 +30,7 @@ def c05(tier=None):
     c = Check("C05", ["Wasp.Properties.Facts.Wiring", "Wasp.Properties.C05", "Wasp.Properties.C05C12E2E", "Wasp.Properties.C04", "Wasp.Properties.Facts.C05"], tier)
     c.build()
     samples = []
-    scs = brokerlib.corpus(c.rng, ["inbound-outbound-id", "same-client-id-overlapping-qos2", "late-pubrel-after-timeout"])
+    scs = brokerlib.corpus(c.rng, ["inbound-outbound-id", "same-client-id-overlapping-qos2", "late-pubrel-after-timeout", "qos2-large-ids", "publish-workers-survive-failures"])
     scs += [gen_faults(c.rng, c.rng.choice([1, 2, 3, 3])) for _ in range(n_of(c, 24, 300))]
     run_scenarios(c, "publish-under-write-failures", scs, samples)
     # the handshake table is the ack queue: its timers under real (sub-second) deadlines and sweep times
@@ -43,7 +43,7 @@ def c14(tier=None):
     c = Check("C14", ["Wasp.Properties.Facts.Wiring", "Wasp.Properties.C14", "Wasp.Properties.C03C14E2E", "Wasp.Properties.Reachable2", "Wasp.Properties.E2EMulti", "Wasp.Properties.Facts.C14"], tier)
     c.build()
     samples = []
-    scs = brokerlib.corpus(c.rng, ["broken-recipient", "alternating-hosts", "unsubscribe-overtakes-subscribe"])
+    scs = brokerlib.corpus(c.rng, ["broken-recipient", "alternating-hosts", "unsubscribe-overtakes-subscribe", "publish-workers-survive-failures"])
     scs += [gen_faults(c.rng, c.rng.choice([2, 3, 3])) for _ in range(n_of(c, 20, 250))]
     run_scenarios(c, "cross-node-placement-and-unreachable-subsets", scs, samples)
     scs = [gen_converged(c.rng, c.rng.choice([2, 3]), 1, c.rng.choice([10, 16]), {"pub": 8, "sub": 4}) for _ in range(n_of(c, 6, 80))]
@@ -55,6 +55,9 @@ def c14(tier=None):
     scs = [gen_lifecycle(c.rng, c.rng.choice([2, 3]), 1, takeover=0.5) for _ in range(n_of(c, 6, 80))]
     run_scenarios(c, "routing-after-take-over-and-session-end", scs, samples)
     run_scenarios(c, "everything-mixed", [brokerlib.gen_soup(c.rng, nn=c.rng.choice([2, 3])) for _ in range(n_of(c, 6, 100))], samples)
+    # each hosting node delivers from its own log: a long history to a subscriber on the OTHER node, across the log's
+    # segment and truncation boundaries
+    run_scenarios(c, "cross-node-long-history-real-log", [brokerlib.gen_reallog(c.rng, 2300, nn=2)], samples)
     return c.finish(samples=samples, rule="case = one placement of publishers/subscribers over 2-3 nodes, publishes under every sampled subset of unreachable / failing destinations; each node's log and each client's packets observed")
 
 
@@ -72,6 +75,10 @@ def c11(tier=None):
     brokerlib.add_refused_connect_suite(c, samples)
     run_scenarios(c, "everything-mixed", [brokerlib.gen_soup(c.rng) for _ in range(n_of(c, 8, 150))], samples)
     brokerlib.add_nodefail_suites(c, samples)
+    # "disappear from every node's view": what a node broadcasts when it removes a failed peer's sessions and
+    # subscriptions (and everything else it changes) makes a receiver list what the origin lists
+    from checks import c09
+    c09.add_origin_receiver_suites(c, samples, n_of(c, 120, 2000))
     brokerlib.add_timing_suites(c, samples)
     return c.finish(samples=samples, rule="case = one session script (connect, subscribe sets, publish, ping, DISCONNECT / connection loss / displacement) on 1-3 nodes; gossip fully delivered after each change (oracle on packets and on every node's listing) or link by link in random order (model comparison)")
 
@@ -95,7 +102,7 @@ def c13(tier=None):
     samples = []
     scs = [gen_converged(c.rng, c.rng.choice([1, 2, 3]), 1, c.rng.choice([8, 12]), {"end": 5, "connect": 4, "sub": 4, "pub": 2}) for _ in range(n_of(c, 12, 160))]
     run_scenarios(c, "wills-by-cause-and-placement", scs, samples)
-    scs = brokerlib.corpus(c.rng, ["connack-unwritable", "suback-unwritable", "clean-end-overtakes-creation-then-node-fails", "removal-overtakes-creation", "returning-client-will"])
+    scs = brokerlib.corpus(c.rng, ["connack-unwritable", "suback-unwritable", "clean-end-overtakes-creation-then-node-fails", "removal-overtakes-creation", "returning-client-will", "publish-workers-survive-failures", "same-client-id-other-tenant-will"])
     scs += [brokerlib.gen_answer_lost(c.rng) for _ in range(n_of(c, 5, 80))]
     run_scenarios(c, "wills-corpus-and-lost-answers", scs, samples)
     run_scenarios(c, "everything-mixed", [brokerlib.gen_soup(c.rng) for _ in range(n_of(c, 8, 150))], samples)
@@ -109,7 +116,7 @@ def c17(tier=None):
     samples = []
     scs = [gen_converged(c.rng, c.rng.choice([1, 2]), c.rng.choice([2, 3]), c.rng.choice([12, 18]), {"pub": 8, "sub": 5, "end": 2}) for _ in range(n_of(c, 10, 150))]
     run_scenarios(c, "tenants-publish-retain-will", scs, samples)
-    scs = brokerlib.corpus(c.rng, ["same-client-id-two-tenants", "same-client-id-overlapping-qos2", "concatenation-collision", "topic-starts-with-mount-name"])
+    scs = brokerlib.corpus(c.rng, ["same-client-id-two-tenants", "same-client-id-overlapping-qos2", "concatenation-collision", "topic-starts-with-mount-name", "same-client-id-other-tenant-will"])
     scs += [gen_lifecycle(c.rng, c.rng.choice([1, 2]), 2, takeover=0.6) for _ in range(n_of(c, 8, 120))]
     run_scenarios(c, "tenants-shared-client-ids", scs, samples)
     run_scenarios(c, "everything-mixed-two-tenants", [brokerlib.gen_soup(c.rng, mounts=c.rng.choice([2, 3])) for _ in range(n_of(c, 8, 150))], samples)
@@ -123,12 +130,15 @@ def c02(tier=None):
     c = Check("C02", ["Wasp.Properties.Facts.Wiring", "Wasp.Properties.C02", "Wasp.Properties.C02Pool", "Wasp.Properties.C02E2E", "Wasp.Properties.Reachable", "Wasp.Properties.C15", "Wasp.Properties.Facts.C15", "Wasp.Properties.Facts.C02"], tier)
     c.build()
     samples = []
-    scs = brokerlib.corpus(c.rng, ["first-message", "slow-qos2", "inbound-outbound-id", "ids-return-after-recipient-vanished", "broken-recipient", "late-pubrel-after-timeout", "retransmit-then-next"])
+    scs = brokerlib.corpus(c.rng, ["first-message", "slow-qos2", "inbound-outbound-id", "ids-return-after-recipient-vanished", "broken-recipient", "late-pubrel-after-timeout", "retransmit-then-next", "qos2-large-ids"])
     scs += [gen_converged(c.rng, 1, 1, c.rng.choice([10, 14]), {"pub": 10, "sub": 3, "unsub": 0.5, "end": 0.5}) for _ in range(n_of(c, 8, 100))]
     run_scenarios(c, "acked-publish-delivered", scs, samples)
     # acknowledged publishes must reach subscribers whose earlier QoS 1/2 exchanges are slow, time out and are resumed
     scs = [gen_retransmit(c.rng, 1) for _ in range(n_of(c, 8, 100))]
     scs += [brokerlib.gen_broken_recipient_qos(c.rng) for _ in range(n_of(c, 10, 100))]
     run_scenarios(c, "acked-publish-delivered-under-timeouts", scs, samples)
+    # "acknowledged" presupposes that every hosting node's log took the message: publishes under failing logs / nodes
+    scs = [gen_faults(c.rng, c.rng.choice([2, 3])) for _ in range(n_of(c, 8, 100))]
+    run_scenarios(c, "acknowledged-only-if-stored-everywhere", scs, samples)
     brokerlib.add_reallog_suites(c, samples)
     return c.finish(samples=samples, rule="case = one publish history (QoS mix, 1-3 publishers and subscribers); the real-log suite crosses the segment (500) and truncation (2000) boundaries and starts with the first message a node ever stores")
